@@ -136,7 +136,7 @@ fn run(t: &Tape, want_desc: bool) -> CaseResult {
 }
 
 pub fn suites() -> Vec<Suite> {
-    vec![Suite {
+    vec![crate::props::funcs::suite_route_shape(), Suite {
         name: "pass_through",
         about: "routes over distinct pairs executed while the router holds none of the route's assets: recipient growth == SimulateSwapOperations in the pre-state, input fully consumed, router ends at zero, nothing else reaches sender/recipient/router; empty routes and routes with more than one dangling output must be rejected",
         head_len: HEAD_LEN,
